@@ -52,6 +52,8 @@ def metadata_payload(rng, padding=None):
         body += tlv(0x03, be(rng.randrange(0, 1 << rng.choice([1, 8, 16, 40, 63]))))
     if rng.random() < 0.3:
         body += tlv(0x04, be(rng.randrange(1, 1 << 50)))
+    if rng.random() < 0.25:
+        body += tlv(rng.choice([0x1d, 0x0f, 0x1f05]), rng.randbytes(rng.randrange(0, 5)), nc=1)      # unknown element, flagged non-critical only
     if padding is None:
         padding = rng.random() < 0.6
     if padding:
